@@ -534,3 +534,222 @@ pub fn replay_tying(case: &Value, rep: &mut Report, rng: &mut Rng) {
         }
     }
 }
+
+// ------------------------------------------------------------------------------------------------
+// Recording driver "net": builder sessions and forward / backward passes of random networks
+// (implementation -> specification, validated by Trace_Net against Network.tla)
+// ------------------------------------------------------------------------------------------------
+
+fn ints_json(t: &Tensor) -> Value {
+    fn conv(v: &Value) -> Value {
+        match v.as_array() {
+            Some(a) => Value::Array(a.iter().map(conv).collect()),
+            None => json!(v.as_f64().unwrap() as i64),
+        }
+    }
+    json!({"shape": data_dims(&t.data), "data": conv(&tensor_json(t))})
+}
+
+fn sparse_int(rng: &mut Rng) -> f32 {
+    match rng.below(6) {
+        0 => 1.0,
+        1 => -1.0,
+        2 => 2.0,
+        _ => 0.0,
+    }
+}
+
+/// Random hyper-parameters of a spatial layer that fit an input of h x w (standard size formulas).
+fn random_hp(kind: &str, h: usize, w: usize, rng: &mut Rng) -> Option<Value> {
+    for _ in 0..20 {
+        let (kh, kw) = (rng.range(1, 3) as usize, rng.range(1, 3) as usize);
+        let (sh, sw) = (rng.range(1, 2) as usize, rng.range(1, 2) as usize);
+        let (ph, pw) = (rng.range(0, 2) as usize, rng.range(0, 2) as usize);
+        let (dh, dw) = (rng.range(1, 2) as usize, rng.range(1, 2) as usize);
+        let f = rng.range(1, 2) as usize;
+        let act = if rng.below(2) == 0 { "linear" } else { "relu" };
+        let ok = match kind {
+            "conv" => h + 2 * ph >= dh * (kh - 1) + 1 && w + 2 * pw >= dw * (kw - 1) + 1,
+            "deconv" => (h - 1) * sh + kh > 2 * ph && (w - 1) * sw + kw > 2 * pw && ph <= 1 && pw <= 1,
+            _ => kh <= h && kw <= w,
+        };
+        if !ok {
+            continue;
+        }
+        return Some(match kind {
+            "conv" => json!({"f": f, "kh": kh, "kw": kw, "sh": sh, "sw": sw, "ph": ph, "pw": pw, "dh": dh, "dw": dw, "act": act, "bias": false}),
+            "deconv" => json!({"f": f, "kh": kh, "kw": kw, "sh": sh, "sw": sw, "ph": ph, "pw": pw, "dh": 1, "dw": 1, "act": act, "bias": false}),
+            _ => json!({"f": 1, "kh": kh, "kw": kw, "sh": rng.range(1, 3), "sw": rng.range(1, 3), "ph": 0, "pw": 0, "dh": 1, "dw": 1, "act": "linear", "bias": false}),
+        });
+    }
+    None
+}
+
+fn layer_params_json(layer: &Layer) -> Value {
+    let p = verif::layer_params(layer);
+    let ints2 = |w: &Vec<Vec<f32>>| json!(w.iter().map(|r| r.iter().map(|x| *x as i64).collect::<Vec<i64>>()).collect::<Vec<_>>());
+    match p.kind {
+        "dense" => {
+            let w = p.weights.unwrap();
+            let n = w.len();
+            json!({"W": ints2(&w), "b": p.bias.map(|b| b.iter().map(|x| *x as i64).collect::<Vec<i64>>()).unwrap_or(vec![0; n])})
+        }
+        "convolution" | "deconvolution" => json!({"K": p.kernels.unwrap().iter().map(|f| f.iter().map(|c| c.iter().map(|r| r.iter().map(|x| *x as i64).collect::<Vec<i64>>()).collect::<Vec<_>>()).collect::<Vec<_>>()).collect::<Vec<_>>()}),
+        _ => json!({"K": []}),
+    }
+}
+
+pub fn record_net(seed: u64, tier: &str, trace: &mut Vec<Value>, rep: &mut Report) {
+    let mut rng = Rng::new(seed ^ 0x0E7);
+    let sessions = if tier == "thorough" { 150 } else { 25 };
+    for session in 0..sessions {
+        // ---- input shape and builder calls ----
+        let spatial_input = rng.below(3) != 0;
+        let input: Vec<usize> = if spatial_input {
+            vec![rng.range(1, 2) as usize, rng.range(3, 8) as usize, rng.range(3, 8) as usize]
+        } else {
+            vec![*rng.pick(&[4usize, 6, 9, 12, 16])]
+        };
+        let mut net = Network::new(shape_from(&json!(input)));
+        trace.push(json!({"event": "New", "session": session, "input": input}));
+        let mut out: Vec<usize> = input.clone();
+        let depth = rng.range(1, 4) as usize;
+        let mut accepted = 0usize;
+        let mut attempts = 0;
+        while accepted < depth && attempts < 12 {
+            attempts += 1;
+            let kind = *rng.pick(&["dense", "dense", "conv", "conv", "deconv", "pool"]);
+            // shape the layer would read (flat -> 1 x r x r when square); non-square flats are issued on purpose sometimes
+            let (h, w) = if out.len() == 3 {
+                (out[1], out[2])
+            } else {
+                let r = (out[0] as f64).sqrt() as usize;
+                (r.max(1), r.max(1))
+            };
+            let hp = if kind == "dense" {
+                json!({"f": *rng.pick(&[3usize, 4, 6, 9, 16]), "kh": 1, "kw": 1, "sh": 1, "sw": 1, "ph": 0, "pw": 0, "dh": 1, "dw": 1,
+                       "act": if rng.below(2) == 0 { "linear" } else { "relu" }, "bias": rng.below(2) == 0})
+            } else {
+                match random_hp(kind, h, w, &mut rng) {
+                    Some(hp) => hp,
+                    None => continue,
+                }
+            };
+            // keep tensors small
+            let desc = desc_from_hp(kind, &hp);
+            let got = guarded(|| nets::add_layer(&mut net, &desc));
+            match got {
+                Ok(()) => {
+                    let idx = net.layers.len() - 1;
+                    // sparse integer parameters
+                    let p = verif::layer_params(&net.layers[idx]);
+                    if p.kind != "maxpool" {
+                        let mut f = || sparse_int(&mut rng);
+                        let newp = verif::Params {
+                            kind: p.kind,
+                            weights: p.weights.as_ref().map(|w| w.iter().map(|r| r.iter().map(|_| f()).collect()).collect()),
+                            bias: p.bias.as_ref().map(|b| b.iter().map(|_| f()).collect()),
+                            kernels: p.kernels.as_ref().map(|k| k.iter().map(|a| a.iter().map(|b| b.iter().map(|c| c.iter().map(|_| f()).collect()).collect()).collect()).collect()),
+                        };
+                        verif::set_layer(&mut net.layers[idx], newp);
+                    }
+                    let (ain, aout) = announced(&net, idx).unwrap_or((vec![], vec![]));
+                    trace.push(json!({"event": "Add", "kind": kind, "hp": hp, "outcome": "ok", "in": ain, "out": aout,
+                                      "params": layer_params_json(&net.layers[idx])}));
+                    out = aout;
+                    accepted += 1;
+                    if out.iter().product::<usize>() > 200 {
+                        break;
+                    }
+                }
+                Err(_) => {
+                    trace.push(json!({"event": "Add", "kind": kind, "hp": hp, "outcome": "panic", "in": [], "out": [], "params": {}}));
+                }
+            }
+        }
+        if accepted == 0 {
+            continue;
+        }
+        // ---- connections ----
+        let n = net.layers.len();
+        let count_in = |net: &Network, i: usize| -> usize { announced(net, i).map(|a| a.0.iter().product()).unwrap_or(0) };
+        let mut plain = true;
+        let mut has_loop = false;
+        if n >= 2 && rng.below(2) == 0 {
+            for _ in 0..2 {
+                let a = rng.below(n as u64) as usize;
+                let b = a + rng.below((n - a) as u64) as usize;
+                if count_in(&net, a) != count_in(&net, b) {
+                    continue;
+                }
+                let got = guarded(|| net.connect(a, b));
+                trace.push(json!({"event": "Connect", "from": a + 1, "to": b + 1, "outcome": if got.is_ok() { "ok" } else { "panic" }}));
+            }
+            let skip = *rng.pick(&["add", "add", "subtract", "multiply", "overwrite"]);
+            net.set_accumulation(nets::accumulation(skip), nets::accumulation("add"));
+            trace.push(json!({"event": "SetAcc", "skip": skip, "loop": "add"}));
+            plain = skip == "add";
+        } else if n >= 1 && rng.below(3) == 0 {
+            let a = rng.below(n as u64) as usize;
+            let b = a + rng.below((n - a) as u64) as usize;
+            let (ia, ob) = (announced(&net, a).map(|x| x.0), announced(&net, b).map(|x| x.1));
+            if ia.is_some() && ia == ob {
+                let scale: neurons::tensor::Scale = std::sync::Arc::new(|_x| 1.0);
+                let (k, isk) = (rng.range(1, 2) as usize, rng.below(2) == 0);
+                if guarded(|| net.loopback(b, a, k, scale, isk)).is_ok() {
+                    let lacc = *rng.pick(&["add", "subtract", "overwrite"]);
+                    net.set_accumulation(nets::accumulation("add"), nets::accumulation(lacc));
+                    trace.push(json!({"event": "Loopback", "outof": b + 1, "into": a + 1, "iterations": k, "inskips": isk, "outcome": "ok"}));
+                    trace.push(json!({"event": "SetAcc", "skip": "add", "loop": lacc}));
+                    has_loop = true;
+                }
+            }
+        }
+        // ---- forward / backward passes on integer inputs ----
+        for _ in 0..2 {
+            let x = {
+                let nelem: usize = input.iter().product();
+                let v: Vec<f32> = (0..nelem).map(|_| rng.range(-3, 3) as f32).collect();
+                if input.len() == 1 { Tensor::single(v) } else { crate::tensors::triple_rowmajor(&input, &v) }
+            };
+            rep.checks += 1;
+            match guarded(|| net.forward(&x)) {
+                Err(e) => {
+                    rep.mismatch("C02", "forward_panicked_in_driver", &format!("session{}", session), json!({"panic": e}), &json!({"session": session}));
+                    break;
+                }
+                Ok((pre, post, max, fbs)) => {
+                    if post.iter().any(|t| flat(t).iter().any(|v| v.abs() > 1.0e6 || v.fract() != 0.0)) {
+                        break; // outside the exact integer range: not logged
+                    }
+                    trace.push(json!({"event": "Forward", "x": ints_json(&x), "posts": post[1..].iter().map(ints_json).collect::<Vec<_>>()}));
+                    if plain && !has_loop {
+                        let last = post.last().unwrap();
+                        let g = {
+                            let dims = data_dims(&last.data);
+                            let v: Vec<f32> = (0..dims.iter().product::<usize>()).map(|_| (rng.range(1, 2) * if rng.below(2) == 0 { 1 } else { -1 }) as f32).collect();
+                            if dims.len() == 1 { Tensor::single(v) } else { crate::tensors::triple_rowmajor(&dims, &v) }
+                        };
+                        if let Ok((wg, bg)) = guarded(|| net.verif_backward(g.clone(), &pre, &post, &max, fbs)) {
+                            if wg.iter().any(|t| flat(t).iter().any(|v| v.abs() > 1.0e6)) {
+                                continue;
+                            }
+                            let nl = net.layers.len();
+                            let grads: Vec<Value> = (0..nl)
+                                .map(|i| {
+                                    let dw = ints_json(&wg[nl - 1 - i])["data"].clone();
+                                    let db = bg[nl - 1 - i].as_ref().map(|b| ints_json(b)["data"].clone()).unwrap_or(json!([]));
+                                    json!({"dw": dw, "db": db})
+                                })
+                                .collect();
+                            trace.push(json!({"event": "Backward", "x": ints_json(&x), "g": ints_json(&g), "grads": grads}));
+                        }
+                    }
+                }
+            }
+        }
+        rep.cases += 1;
+        rep.nontrivial(format!("session{}", session));
+    }
+    rep.count("trace_runs", sessions as u64);
+}
